@@ -397,7 +397,8 @@ def g_recipe(seed, fam, shape):
     last holds scalars only)."""
     rng = random.Random(seed)
     nb = 1 if shape == "single" else rng.randrange(2, 4)
-    names = rng.sample(["x", "y", "z", "iceii", "r3c", "acetic_acid", "A1", "blk-2", "global", "1"], nb)
+    names = rng.sample(["x", "y", "z", "iceii", "r3c", "acetic_acid", "A1", "blk-2", "global", "1", "metadata_1", "xrd_data_300K",
+                        "data_set_2", "run_1", "run_data_1", "DATA_x", "loop_1", "data"], nb)
     data = []
     for i, bn in enumerate(names):
         so = shape == "multi-scalars-first" and i < nb - 1
